@@ -182,6 +182,8 @@ func (res *SymResult) Solve(be solver.Backend, dir string, timeoutS, par int) {
 // ---- native replay ------------------------------------------------------------------
 
 type ReplayFile struct {
+	Check   string                    `json:"check"`
+	Job     string                    `json:"job"`
 	Harness string                    `json:"harness"`
 	Target  string                    `json:"target"`
 	Values  map[string]int64          `json:"values"`
